@@ -260,6 +260,39 @@ def fd_search(rng):
                     break
             if out and out[-1][0]["function"] == fn:
                 break
+    # several arguments depending on ONE variable (a band of fixed width around a moving centre, a limit equal to the value):
+    # the total derivative is the sum over the argument positions
+    try:
+        from Solverz import Model, Var, Eqn, Saturation, Min, AntiWindUp
+        forms = {"Saturation(x, w-1, w+1)": (lambda x, w: Saturation(x, w - 1, w + 1), lambda x, w: doc("sat", x, w - 1, w + 1)),
+                 "Saturation(w, x-1, w+2)": (lambda x, w: Saturation(w, x - 1, w + 2), lambda x, w: doc("sat", w, x - 1, w + 2)),
+                 "Min(x*w, w)": (lambda x, w: Min(x * w, w), lambda x, w: doc("min", x * w, w)),
+                 "AntiWindUp(w, x-1, x+1, w)": (lambda x, w: AntiWindUp(w, x - 1, x + 1, w), lambda x, w: doc("awu", w, x - 1, x + 1, w))}
+        for label, (sym, num) in forms.items():
+            m = Model(); m.x = Var("x", [0.3]); m.w = Var("w", [1.7])
+            m.e1 = Eqn("e1", sym(m.x, m.w)); m.e2 = Eqn("e2", m.x - m.w)
+            eqs, y0 = lang.quiet(m.create_instance)
+            nd = lang.quiet(made_numerical, eqs, y0, sparse=False)
+            for _ in range(60):
+                xv, wv = rng.uniform(-4, 4, size=2)
+                h = 1e-6
+                vals = [num(xv + dx, wv + dw) for dx in (-2 * h, 0, 2 * h) for dw in (-2 * h, 0, 2 * h)]
+                # skip points near a kink: the documented function must be (numerically) affine on the stencil
+                fdx = (num(xv + h, wv) - num(xv - h, wv)) / (2 * h); fdw = (num(xv, wv + h) - num(xv, wv - h)) / (2 * h)
+                if abs(num(xv + 2 * h, wv) - num(xv, wv) - 2 * h * fdx) > 1e-9 or abs(num(xv, wv + 2 * h) - num(xv, wv) - 2 * h * fdw) > 1e-9:
+                    continue
+                with warnings.catch_warnings():
+                    warnings.simplefilter("ignore")
+                    J = np.asarray(nd.J(np.array([xv, wv]), nd.p))
+                for j, fd in enumerate((fdx, fdw)):
+                    if abs(J[0, j] - fd) > 1e-5 * max(1.0, abs(fd)):
+                        out.append((dict(function=label, x=float(xv), w=float(wv), variable="xw"[j]),
+                                    f"d {label} / d {'xw'[j]} at x={xv!r}, w={wv!r}: generated Jacobian {J[0, j]!r}, derivative of the documented function {fd!r}"))
+                        break
+                if out and out[-1][0]["function"] == label:
+                    break
+    except Exception as ex:  # noqa
+        out.append((dict(function="shared-variable forms"), f"building the shared-variable models raised {type(ex).__name__}: {str(ex)[:120]}"))
     return out
 
 
